@@ -34,6 +34,7 @@ _NO_RAISE = bool(_os.environ.get("FAILPOINT_NO_RAISE"))   # diagnosis only: coun
 # the raise suppressed the same workload runs clean; see DESIGN.md), so workloads on those interpreters stop
 # injecting once a per-process budget is used up.  3.12+ uses sys.monitoring and has no such limit.
 RAISED_FROM_TRACE_FUNCTION = [0]
+SKIPPED_IN_GENERATOR_CLOSE = [0]
 SETTRACE_RAISE_BUDGET = 25000
 
 
@@ -74,9 +75,20 @@ class LineFailpoints(object):
         return None
 
     def _loc(self, frame, event, arg):
-        if event == "line" and self.gate():
+        if event == "exception" and arg and arg[0] is GeneratorExit:
+            # a generator that is being closed - typically from its deallocation, when a consumer stopped early
+            self._closing = frame
+        elif event == "line" and self.gate():
             self.count += 1
             if self.target is not None and self.count == self.target and not self.fired:
+                if getattr(self, "_closing", None) is frame:
+                    # Not a fault site on interpreters older than 3.12: an exception raised by a trace function
+                    # while CPython finalises a generator ("Exception ignored in: <generator ...>") was followed
+                    # by bus errors / segfaults inside unrelated stdlib code on 3.11 (see DESIGN.md).  The run stays
+                    # fault-free; 3.12 (sys.monitoring) keeps these sites.
+                    SKIPPED_IN_GENERATOR_CLOSE[0] += 1
+                    self.target = None
+                    return self._loc
                 self.fired = True
                 self.fired_at = (frame.f_code.co_name, frame.f_lineno)
                 if not _NO_RAISE:
@@ -92,6 +104,7 @@ class LineFailpoints(object):
         self.exc = exc
         self.fired = False
         self.fired_at = None
+        self._closing = None
         value = None
         raised = None
         if sys.version_info >= (3, 12):
